@@ -44,7 +44,7 @@ def lean_type(t):
         return "(Val S)"
     if k == "opt":
         return "(Option %s)" % lean_type(t[1])
-    if k == "list":
+    if k in ("list", "iter"):
         return "(List %s)" % lean_type(t[1])
     if k == "tuple":
         return "(" + " × ".join(lean_type(x) for x in t[1]) + ")"
@@ -99,6 +99,14 @@ class Fn:
     def __init__(self, name, lean, params, ret, reader, partial, fuel=False, env=False):
         self.name, self.lean, self.params, self.ret = name, lean, params, ret   # params: [(name, type)] without the reader
         self.reader, self.partial, self.fuel, self.env = reader, partial, fuel, env
+
+
+def lean_str_lit(v):
+    return '"' + v.replace("\\", "\\\\").replace('"', '\\"').replace("\n", "\\n") + '"'
+
+
+def lean_char_lit(v):
+    return "'" + {"\\": "\\\\", "'": "\\'"}.get(v, v) + "'"
 
 
 def ind(text, n=1):
@@ -228,8 +236,10 @@ class Translator:
                 return str(v), NAT
             if isinstance(v, bytes):
                 return "([%s] : Bytes)" % ", ".join(str(b) for b in v), BYTES
-            if isinstance(v, str) and v == "":
+            if isinstance(v, str) and v == "" and not getattr(self, "concrete_str", False):
                 return "E.empty", STR
+            if isinstance(v, str) and getattr(self, "concrete_str", False):
+                return "(%s.toList)" % lean_str_lit(v), STR
             raise Untranslatable("constant %r" % (v,))
         if isinstance(n, ast.Name):
             if n.id in c.env:
@@ -301,6 +311,19 @@ class Translator:
             return self.subscript(n, c, binds)
         if isinstance(n, ast.Call):
             return self.call(n, c, binds, want)
+        if isinstance(n, ast.JoinedStr) and getattr(self, "concrete_str", False):
+            parts = []
+            for v in n.values:
+                if isinstance(v, ast.Constant) and isinstance(v.value, str):
+                    parts.append("%s.toList" % lean_str_lit(v.value))
+                elif isinstance(v, ast.FormattedValue) and v.conversion == -1 and v.format_spec is None:
+                    e, t = self.ex(v.value, c, binds)
+                    if t != STR:
+                        raise Untranslatable("f-string piece of type " + lean_type(t))
+                    parts.append(e)
+                else:
+                    raise Untranslatable("f-string piece " + ast.dump(v)[:60])
+            return "(" + " ++ ".join(parts) + ")", STR
         if isinstance(n, ast.ListComp) and len(n.generators) == 1:
             return self.listcomp(n, c, binds)
         if isinstance(n, ast.DictComp) and len(n.generators) == 1:
@@ -334,6 +357,12 @@ class Translator:
             else:
                 raise Untranslatable("membership in " + lean_type(tb))
             return ("(!%s)" % r if neg else r), BOOL
+        if isinstance(op, (ast.Is, ast.IsNot)) and isinstance(right, ast.Constant) and isinstance(right.value, bool):
+            a, ta = self.ex(left, c, binds)
+            if ta == VAL:
+                # the values of `Any` positions are None / int / str / float here (Py.Val): never the objects True / False
+                return ("true" if isinstance(op, ast.IsNot) else "false"), BOOL
+            raise Untranslatable("`is True/False` on " + lean_type(ta))
         if isinstance(op, (ast.Is, ast.IsNot)) and isinstance(right, ast.Constant) and right.value is None:
             a, ta = self.ex(left, c, binds)
             if ta[0] == "opt":
@@ -453,11 +482,24 @@ class Translator:
                 return self.truth(a, ta), BOOL
             if name in ("bytearray", "bytes", "str", "list") and len(n.args) == 1:
                 a, ta = self.ex(n.args[0], c, binds)
+                if name == "str" and ta == VAL and getattr(self, "concrete_str", False):
+                    # str() of an `Any`: int → decimal text, float → the environment's text
+                    return "(match %s with | Val.int z => Mimic.Py.intText z | Val.flt b => E.fltText b | Val.str t => t | Val.none => \"None\".toList)" % a, STR
                 if name in ("bytearray", "bytes") and ta == NAT:
                     return "(List.replicate %s (0 : UInt8))" % a, BYTES
                 if (name in ("bytearray", "bytes") and ta == BYTES) or (name == "str" and ta == STR) or (name == "list" and ta[0] == "list"):
                     return a, ta
                 raise Untranslatable("%s(%s)" % (name, lean_type(ta)))
+            if name == "iter" and len(n.args) == 1:
+                a, ta = self.ex(n.args[0], c, binds)
+                if ta[0] != "list":
+                    raise Untranslatable("iter of " + lean_type(ta))
+                return a, ("iter", ta[1])
+            if name == "str" and len(n.args) == 1 and getattr(self, "concrete_str", False):
+                a, ta = self.ex(n.args[0], c, binds)
+                if ta == VAL:
+                    # str() of an `Any` that is neither str nor None here: int → decimal text, float → the environment's text
+                    return "(match %s with | Val.int z => Mimic.Py.intText z | Val.flt b => E.fltText b | Val.str t => t | Val.none => \"None\".toList)" % a, STR
             if name == "max" and len(n.args) == 2:
                 a, ta = self.ex(n.args[0], c, binds)
                 # max(c, x - y) with c ≥ 0: truncated subtraction gives the same result
@@ -546,6 +588,33 @@ class Translator:
                     raise Untranslatable("decode: " + ast.unparse(n))
                 v = c.fresh("text")
                 binds.append((v, "E.decode %s %s" % (cs, b)))
+                return v, STR
+            # text.replace("c", "r") with a one-character pattern
+            if f.attr == "replace" and len(n.args) == 2 and getattr(self, "concrete_str", False) and isinstance(n.args[0], ast.Constant) \
+                    and isinstance(n.args[0].value, str) and len(n.args[0].value) == 1 and isinstance(n.args[1], ast.Constant) \
+                    and isinstance(n.args[1].value, str):
+                recv, tr = self.ex(f.value, c, binds)
+                if tr != STR:
+                    raise Untranslatable("replace on " + lean_type(tr))
+                return "(Mimic.Py.strReplaceChar %s %s %s.toList)" % (recv, lean_char_lit(n.args[0].value), lean_str_lit(n.args[1].value)), STR
+            # REGEX_PARAM.sub(lambda _: F(next(values)), text): every match takes the next value
+            if f.attr == "sub" and isinstance(f.value, ast.Name) and f.value.id == "REGEX_PARAM" and len(n.args) == 2 \
+                    and isinstance(n.args[0], ast.Lambda):
+                lam = n.args[0]
+                body = lam.body
+                if not (isinstance(body, ast.Call) and isinstance(body.func, ast.Name) and body.func.id in self.fns and len(body.args) == 1
+                        and isinstance(body.args[0], ast.Call) and isinstance(body.args[0].func, ast.Name) and body.args[0].func.id == "next"
+                        and isinstance(body.args[0].args[0], ast.Name) and c.env.get(body.args[0].args[0].id, (None,))[0] == "iter"):
+                    raise Untranslatable("REGEX_PARAM.sub with " + ast.unparse(lam))
+                fn = self.fns[body.func.id]
+                if fn.partial or fn.reader:
+                    raise Untranslatable("replacement function may raise: evaluating it for all values at once is not equivalent")
+                it = body.args[0].args[0].id
+                text, tt = self.ex(n.args[1], c, binds)
+                if tt != STR:
+                    raise Untranslatable("sub on " + lean_type(tt))
+                v = c.fresh("subst")
+                binds.append(("(%s, _)" % v, "Mimic.Py.subIter E.paramAt %s (%s.map (fun x => %s%s x))" % (text, it, fn.lean, " E" if fn.env else "")))
                 return v, STR
             # cs.encode(text)
             if f.attr == "encode" and len(n.args) == 1:
@@ -936,6 +1005,16 @@ class Translator:
         return "(" + ", ".join(items) + ")"
 
     def if_stmt(self, s, rest, c, k):
+        t0 = s.test
+        if isinstance(t0, ast.Call) and isinstance(t0.func, ast.Name) and t0.func.id == "isinstance" and len(t0.args) == 2 \
+                and isinstance(t0.args[0], ast.Name) and c.env.get(t0.args[0].id) == VAL and ast.unparse(t0.args[1]) == "str" \
+                and self.terminates(s.body) and not s.orelse:
+            x = t0.args[0].id
+            cb = c.copy()
+            cb.env[x] = STR
+            inner = self.block(list(s.body), cb, None)
+            other = self.block(rest, c.copy(), k)
+            return "match %s with\n| Val.str %s =>\n%s\n| _ =>\n%s" % (x, x, ind(inner), ind(other))
         binds, ce, ct = self.expr(s.test, c)
         cond = self.truth(ce, ct)
         if ct == T_opt(NAT) and isinstance(s.test, (ast.Name, ast.Attribute)):
@@ -1490,4 +1569,42 @@ def translate_stream():
             raise Untranslatable("MysqlStream.__init__ no longer contains `%s`" % w)
     out.append("def init (buffer_size : Nat) : MysqlStream S :=\n  { seq := { size := some 256, value := 0 }, _buffer := [], _buffer_size := buffer_size, writer := { log := [] } }")
     out.append("end Mimic.Extracted.StreamCode")
+    return "\n".join(out) + "\n"
+
+
+# ----------------------------------------------------------------------------- packets.py: the COM_STMT_EXECUTE path (text is List Char)
+def translate_execute():
+    """→ Lean source of namespace Mimic.Extracted.ExecuteCode: _encode_param_as_sql, _interpolate_params,
+    parse_com_stmt_execute; `str` is `List Char` here (replace, f-strings, regex substitution)"""
+    from mysql_mimic import packets as P, prepared as Pr
+    from mysql_mimic.types import Capabilities, ColumnType, ComStmtExecuteFlags
+    enums = {}
+    for cls in (Capabilities, ColumnType, ComStmtExecuteFlags):
+        enums[cls.__name__] = {nm: int(m) for nm, m in cls.__members__.items()}
+    qattrs_t = T_dict(T_opt(STR), VAL)
+    records = {
+        "NullBitmap": [("bitmap", BYTES, None), ("offset", NAT, None)],
+        "PreparedStatement": dataclass_fields(Pr.PreparedStatement, {"cursor": None}),
+        "ComStmtExecute": dataclass_fields(P.ComStmtExecute, {"query_attrs": qattrs_t}),
+    }
+    t = Translator(P, enums, records)
+    t.flags = {"Capabilities", "ComStmtExecuteFlags"}
+    t.strict_enums = {"ColumnType": "E.validType"}
+    t.concrete_str = True
+    t.fns.update(lib_fns())
+    PC = "Mimic.Extracted.ParsersCode."
+    params_t = T_list(T_tuple([T_opt(STR), VAL]))
+    t.fns["_read_params"] = Fn("_read_params", PC + "read_params", [("capabilities", NAT, None), ("client_charset", CS, None), ("parameter_count", NAT, None),
+                                                                    ("buffers", T_opt(T_dict(NAT, BYTES)), "none")], params_t, True, True, env=True)
+    t.fns["_read_cursor_flags"] = Fn("_read_cursor_flags", PC + "read_cursor_flags", [], T_tuple([BOOL, BOOL]), True, True)
+    t.local_types = {"_interpolate_params": {"query_attrs": qattrs_t}}
+    out = ["-- GENERATED by harness/extract.py (harness/pytrans2.py) from /repo/mysql_mimic/packets.py — do not edit",
+           "import Mimic.Py", "import Mimic.Extracted.Types", "import Mimic.Extracted.ParsersCode", "namespace Mimic.Extracted.ExecuteCode",
+           "open Mimic.Py", "open Mimic.Extracted.ParsersCode (PreparedStatement)", "", "abbrev S : Type := List Char", ""]
+    out.append(t.record_decl("ComStmtExecute").replace("structure ComStmtExecute (S : Type) where", "structure ComStmtExecute (S : Type) where"))
+    out.append(t.function("_encode_param_as_sql"))
+    out.append(t.function("_interpolate_params", ret=T_tuple([STR, qattrs_t])))
+    out.append(t.function("parse_com_stmt_execute"))
+    # the source of REGEX_PARAM is pinned by C06.source_facts (Extracted/Params.lean); E.paramAt is its meaning
+    out.append("end Mimic.Extracted.ExecuteCode")
     return "\n".join(out) + "\n"
